@@ -52,6 +52,7 @@ func emit(m M) {
 type Probe struct{ ID int }
 
 func newProbe() *Probe { return &Probe{ID: int(atomic.AddInt64(&probes, 1))} }
+
 var closeFail bool // the scenario in progress wants the scoped instance's Close to fail
 
 var errProbeClose = errors.New("verif: scripted close failure")
@@ -89,6 +90,7 @@ type Scenario struct {
 	Batch      int    `json:"batch"`
 	Outer      bool   `json:"outer"` // the incoming request context already carries an application-level scope
 	CloseFail  bool   `json:"closefail"`
+	DefEH      bool   `json:"defeh"` // no error handler configured: the integration's default one is in use
 }
 
 // outerCtx is the context every incoming request carries (context.Background unless the scenario says the
@@ -189,7 +191,9 @@ func buildHTTP(sc *Scenario, p godi.Provider, chi bool) *app {
 	var copts []godichi.Option
 	for i := 1; i <= sc.Nmw; i++ {
 		i := i
-		f := func(s godi.Scope, r *http.Request) error { return mwFunc(sc, i, func() int { return rqOf(r.Header) }, s) }
+		f := func(s godi.Scope, r *http.Request) error {
+			return mwFunc(sc, i, func() int { return rqOf(r.Header) }, s)
+		}
 		opts = append(opts, godihttp.WithMiddleware(f))
 		copts = append(copts, godichi.WithMiddleware(f))
 	}
@@ -197,8 +201,10 @@ func buildHTTP(sc *Scenario, p godi.Provider, chi bool) *app {
 		emit(M{"ev": "errh", "rq": rqOf(r.Header), "kind": kindOfErr(err)})
 		w.WriteHeader(500)
 	}
-	opts = append(opts, godihttp.WithErrorHandler(eh))
-	copts = append(copts, godichi.WithErrorHandler(eh))
+	if !sc.DefEH {
+		opts = append(opts, godihttp.WithErrorHandler(eh))
+		copts = append(copts, godichi.WithErrorHandler(eh))
+	}
 	if sc.CloseFail {
 		opts = append(opts, godihttp.WithCloseErrorHandler(closeErrH))
 		copts = append(copts, godichi.WithCloseErrorHandler(closeErrH))
@@ -275,10 +281,12 @@ func buildGin(sc *Scenario, p godi.Provider) *app {
 				return mwFunc(sc, i, func() int { return rqOf(c.Request.Header) }, s)
 			}))
 		}
-		opts = append(opts, godigin.WithErrorHandler(func(c *ginpkg.Context, err error) {
-			emit(M{"ev": "errh", "rq": rqOf(c.Request.Header), "kind": kindOfErr(err)})
-			c.AbortWithStatus(500)
-		}))
+		if !sc.DefEH {
+			opts = append(opts, godigin.WithErrorHandler(func(c *ginpkg.Context, err error) {
+				emit(M{"ev": "errh", "rq": rqOf(c.Request.Header), "kind": kindOfErr(err)})
+				c.AbortWithStatus(500)
+			}))
+		}
 		if sc.CloseFail {
 			opts = append(opts, godigin.WithCloseErrorHandler(closeErrH))
 		}
@@ -338,10 +346,12 @@ func buildEcho(sc *Scenario, p godi.Provider) *app {
 				return mwFunc(sc, i, func() int { return rqOf(c.Request().Header) }, s)
 			}))
 		}
-		opts = append(opts, godiecho.WithErrorHandler(func(c echopkg.Context, err error) error {
-			emit(M{"ev": "errh", "rq": rqOf(c.Request().Header), "kind": kindOfErr(err)})
-			return c.NoContent(500)
-		}))
+		if !sc.DefEH {
+			opts = append(opts, godiecho.WithErrorHandler(func(c echopkg.Context, err error) error {
+				emit(M{"ev": "errh", "rq": rqOf(c.Request().Header), "kind": kindOfErr(err)})
+				return c.NoContent(500)
+			}))
+		}
 		if sc.CloseFail {
 			opts = append(opts, godiecho.WithCloseErrorHandler(closeErrH))
 		}
@@ -406,10 +416,12 @@ func buildFiber(sc *Scenario, p godi.Provider) *app {
 				return mwFunc(sc, i, func() int { return frq(c) }, s)
 			}))
 		}
-		opts = append(opts, godifiber.WithErrorHandler(func(c *fiberpkg.Ctx, err error) error {
-			emit(M{"ev": "errh", "rq": frq(c), "kind": kindOfErr(err)})
-			return c.SendStatus(500)
-		}))
+		if !sc.DefEH {
+			opts = append(opts, godifiber.WithErrorHandler(func(c *fiberpkg.Ctx, err error) error {
+				emit(M{"ev": "errh", "rq": frq(c), "kind": kindOfErr(err)})
+				return c.SendStatus(500)
+			}))
+		}
 		if sc.CloseFail {
 			opts = append(opts, godifiber.WithCloseErrorHandler(closeErrH))
 		}
@@ -479,13 +491,17 @@ func buildDecoy(sc *Scenario, p godi.Provider) {
 				emit(M{"ev": "errh", "rq": rqOf(r.Header), "kind": "decoy"})
 			}))
 	case "gin":
-		f := func(s godi.Scope, c *ginpkg.Context) error { return decoy(func() int { return rqOf(c.Request.Header) }) }
+		f := func(s godi.Scope, c *ginpkg.Context) error {
+			return decoy(func() int { return rqOf(c.Request.Header) })
+		}
 		_ = godigin.ScopeMiddleware(p, godigin.WithMiddleware(f), godigin.WithMiddleware(f),
 			godigin.WithErrorHandler(func(c *ginpkg.Context, err error) {
 				emit(M{"ev": "errh", "rq": rqOf(c.Request.Header), "kind": "decoy"})
 			}))
 	case "echo":
-		f := func(s godi.Scope, c echopkg.Context) error { return decoy(func() int { return rqOf(c.Request().Header) }) }
+		f := func(s godi.Scope, c echopkg.Context) error {
+			return decoy(func() int { return rqOf(c.Request().Header) })
+		}
 		_ = godiecho.ScopeMiddleware(p, godiecho.WithMiddleware(f), godiecho.WithMiddleware(f),
 			godiecho.WithErrorHandler(func(c echopkg.Context, err error) error {
 				emit(M{"ev": "errh", "rq": rqOf(c.Request().Header), "kind": "decoy"})
